@@ -73,7 +73,7 @@ func runC08Lend(ctx *Ctx) {
 			c := &Case{Sub: "lend", Type: string(t.Name), Bytes: hexs(a), Bytes2: hexs(b), Args: map[string]string{
 				"field":  strconv.Itoa(int(fd.Number())),
 				"source": rapid.SampledFrom([]string{"mutable", "mutable", "get", "newfield"}).Draw(rt, "source"),
-				"then":   rapid.SampledFrom([]string{"mutate", "clearmutate", "clearmutate", "lenderclear"}).Draw(rt, "then"),
+				"then":   rapid.SampledFrom([]string{"mutate", "clearmutate", "clearmutate", "lenderclear", "bothappend"}).Draw(rt, "then"),
 				"pre":    strconv.Itoa(rapid.IntRange(0, 3).Draw(rt, "elementsFirst")),
 				"post":   strconv.Itoa(rapid.IntRange(1, 3).Draw(rt, "elementsAfter")),
 			}}
@@ -112,6 +112,9 @@ func checkC08Lend(ctx *Ctx, c *Case) error {
 	source, then := c.arg("source"), c.arg("then")
 	if source == "get" && !sides[sD].a.Has(fd) {
 		source = "mutable" // Get on an unpopulated field gives the read-only empty view, whose use with Set is a contract panic
+	}
+	if then == "bothappend" && (source != "mutable" || !fd.IsList()) {
+		then = "mutate" // both sides appending only makes sense for a list lent from Mutable
 	}
 	if then == "lenderclear" && source == "newfield" {
 		then = "clearmutate" // a detached value has no lender to clear
@@ -188,6 +191,23 @@ func checkC08Lend(ctx *Ctx, c *Case) error {
 			if then == "clearmutate" {
 				sd.b.Clear(fd)
 			}
+			if then == "bothappend" {
+				// lender appends through its view, then the borrower appends through its
+				// own Mutable view: whether the two lists share memory after Set differs
+				// between the references; the generated code must behave like one of them
+				if err := put(s, 3); err != nil {
+					return err
+				}
+				v, err := elem(s, 4)
+				if err != nil {
+					return err
+				}
+				sd.b.Mutable(fd).List().Append(v)
+				got[s].viewLen = viewStr(s)
+				got[s].lender = model.Canon(sd.a, sd.view)
+				got[s].dest = model.Canon(sd.b, sd.view)
+				return nil
+			}
 			if then == "lenderclear" {
 				// the lender drops the field: the destination keeps what it was given
 				sd.a.Clear(fd)
@@ -245,6 +265,16 @@ func checkC08Lend(ctx *Ctx, c *Case) error {
 	}
 	if err := cmp("length seen through the view", got[sP].viewLen, got[sD].viewLen, got[sI].viewLen); err != nil {
 		return err
+	}
+	if then == "bothappend" {
+		pp := got[sP].lender + " / " + got[sP].dest
+		dd := got[sD].lender + " / " + got[sD].dest
+		ii := got[sI].lender + " / " + got[sI].dest
+		if pp != dd && pp != ii {
+			return fmt.Errorf("field %s: a list view from Mutable is passed to Set on a second message, the lender appends, then the borrower appends: lender / borrower are %s, which is neither dynamicpb's outcome (%s) nor protoimpl's (%s)", fd.Name(), trunc(pp, 300), trunc(dd, 300), trunc(ii, 300))
+		}
+		ctx.Nontrivial(c.Type, c.Sub, fmt.Sprintf("%s|%s|%s|%s|%s|%v", c.arg("field"), source, then, c.Bytes, c.Bytes2, c.Args))
+		return nil
 	}
 	if then == "lenderclear" {
 		if err := cmp("the destination after the lender cleared its field", got[sP].dest, got[sD].dest, got[sI].dest); err != nil {
